@@ -25,11 +25,14 @@ def vkey(e):
     if e["op"] in ("putpath", "getpath"): return "vss op=%s mode=%d" % (e["op"], e["mode"])
     return "vss op=%s dt=%d" % (e["op"], e["dt"])
 
-def cmd(vec, place, off, cap=None):
+def cmd(vec, place, off, cap=None, srcoff=None):
     op = vec["op"]
     if cap is None:
         cap = vec["len"] if op in ("getpath", "getdata") else 0
-    return "VS %s %d %d %d %d %d %s %d %s %s" % (op, vec["dt"], vec["mode"], vec["n"], cap, vec["base"], place, off, hexs(vec["pre"]), hexs(vec["arg"]))
+    return "VS %s %d %d %d %d %d %s %d %s %s%s" % (op, vec["dt"], vec["mode"], vec["n"], cap, vec["base"], place, off, hexs(vec["pre"]), hexs(vec["arg"]),
+                                                   "" if srcoff is None else " %d" % srcoff)
+
+ELEM = {130: 2, 131: 2, 132: 4, 133: 4, 134: 8, 135: 8, 137: 4, 138: 8}      # array datatypes with multi-byte elements
 
 def parse(line):
     t = line.split()
@@ -75,6 +78,10 @@ def replay(v, ex, vectors, rnd, places=None, tag=""):
         pls = places if places is not None else [("E", 0), ("S", rnd.randrange(16))] + ([("R", 0)] if reads else [])
         for place, off in pls:
             cmds.append(cmd(vec, place, off)); meta.append((vec, "%splacement %s+%d" % (tag, place, off)))
+        if vec["op"] == "putdata" and vec["dt"] in ELEM and vec["arg"] and vec.get("dataat"):
+            # zero-copy use: the host-order samples already lie where the message wants them and are converted in place
+            # (source pointer = destination of the element area; each element must be read as a whole before it is stored)
+            cmds.append(cmd(vec, "S", 0, srcoff=vec["dataat"] + 2)); meta.append((vec, "%ssource in place (inside the message)" % tag))
     outs = ex.run_robust(cmds, timeout=1800)
     if len(outs) != len(cmds): raise Infra("executor died in VSS replay (exit %s): %s" % (ex.returncode, ex.stderr[-400:]))
     bad = sum(0 if compare(vec, line, v, what) else 1 for (vec, what), line in zip(meta, outs))
